@@ -176,3 +176,25 @@ def u_dispatch(U):
         U.post('coefficient-matrix-has-one-column-per-row-number', p, z3.And(Z(B.shape[0]) == n, Z(B.shape[1]) == nI))
         U.post('row-numbers-valid', p, valid_rows(I, n) if I.tag == 'ivec' and I.t is not None else False)
     U.canary('canary-always-trivial', U.pre, n <= r)
+
+
+def call_maxvol_dispatch(ex, st, args, kwargs, node):
+    """Call-site contract of utils._maxvol(A, tau, dr_min, dr_max, tau0, k0) — the postcondition proved by the unit
+    utils._maxvol: never raises for 0 <= dr_min <= dr_max; the number nI of returned row numbers is n for n <= r and lies
+    between r + min(dr_min, cap) and r + cap (cap = min(dr_max, n - r)) otherwise; B is n x nI; row numbers are valid."""
+    A = st.deref(args[0])
+    if not (isinstance(A, VArr) and A.ndim == 2):
+        raise M.Unsupported('_maxvol of a non-matrix')
+    n, r = Z(A.shape[0]), Z(A.shape[1])
+    dr_min = Z(ex.need_num(st, args[2], node)) if len(args) > 2 else z3.IntVal(0)
+    dr_max = Z(ex.need_num(st, args[3], node)) if len(args) > 3 else z3.IntVal(0)
+    ex.oblige(st, 'call-pre', '_maxvol: non-empty matrix and consistent requests (0 <= dr_min <= dr_max)',
+              z3.And(n >= 1, r >= 1, dr_min >= 0, dr_max >= dr_min), node)
+    nI = ex.fresh_int('nrows')
+    cap = z3.If(n - r < dr_max, n - r, dr_max)
+    st.assume(z3.Implies(n <= r, nI == n),
+              z3.Implies(n > r, z3.And(nI >= r + z3.If(dr_min < cap, dr_min, cap), nI <= r + cap, nI <= n)))
+    return VTuple([L.fresh_ivec(ex, st, nI, 0, n, 'Imv'), L.fresh_mat(ex, st, n, nI, 'Bmv')])
+
+
+M.CALLEES['utils._maxvol'] = call_maxvol_dispatch
